@@ -187,6 +187,15 @@ def _tl():
     return t
 
 
+def kwargs_named_table():
+    """T0 whose first parameter has a scalar-looking role but a name ending in `kwargs` (optimizer_kwargs: str): the name must not
+    decide how an option is emitted (used for the argparse round trip, C04)."""
+    t = _t0()
+    t["id"] = "TK"
+    t["names"] = dict(t["names"], p1="optimizer_kwargs", kw="data_loader_kwargs")
+    return t
+
+
 def tables(n_random=0, seed=0):
     ts = [_t0(), _t1(), _tn(), _tl()]
     for i in range(n_random):
